@@ -63,7 +63,7 @@ Ctx(kind, x, y, c) ==
       [] kind = 4 -> << x, Loop(Bin("+", N, K(1)), I, <<y>>) >>
       [] kind = 5 -> << IfElse(c, <<x>>, << IfElse(Conds[1], <<y>>, << Upd(Bv, 4) >>) >>) >>
 
-PairCount == IF Tier = "thorough" THEN 3000 ELSE 300
+PairCount == IF Tier = "thorough" THEN 1200 ELSE 300
 Pairs ==
     [k \in 1..PairCount |->
         LET x == Atoms[(H3(Seed, k, 1) % NAt) + 1]
@@ -87,7 +87,7 @@ RandS(d, salt) ==
         ELSE IF kind = 6 THEN << Block(RandS(d - 1, 2 * salt)) >>
         ELSE << Loop(K(3), IF d % 2 = 0 THEN I ELSE J, RandS(d - 1, 2 * salt) \o << Set(A, Bin("+", A, CastE(S32, IF d % 2 = 0 THEN I ELSE J))) >>) >>
 
-DeepCount == IF Tier = "thorough" THEN 2500 ELSE 100
+DeepCount == IF Tier = "thorough" THEN 800 ELSE 100
 Deep == [k \in 1..DeepCount |-> Prog("d-" \o ToString(k), RandS(2 + (k % 3), 5000 + k), <<"deep">>)]
 
 \* hand-picked structural cases: nested loops, loop variable modified in the body, zero-trip loops
